@@ -4,9 +4,9 @@ import json
 props=[json.loads(l) for l in open('/verif/properties.jsonl')]
 TECH="deterministic simulation with fault injection: seeded choice stream drives generation, scheduling and faults; own shrinker; replay files"
 claimed={
- "C10":("exploration","S1: both RPC endpoints in one synctest bubble over a simulated transport and stub process table; seeded histories x per-Execve failure stage x delivery/exit/cancel/close interleavings; oracle: attribution of results by unique exit values, the container never exits while the transport is intact, usable after every program-caused failure, prompt errors after transport loss; a Ping whose reply arrives just before its deadline with a descheduled caller. K: the same call histories (every failure stage incl. exec failing after sync, ETXTBSY, refused callbacks) against a real container with real programs; the init must survive and stay usable","DESIGN §5 C10","stub processes obey forkexec's contract; states with two simultaneously ready select cases are not constructed; in K the kernel schedules"),
- "C11":("exploration","S1: cancel / Destroy injected at every event boundary of in-flight calls; oracle: the call returns (deadlock detection by quiescence + real-time watchdog), result is the stub child's genuine status or TLE, child killed and reaped, Destroy returns. K: real process trees (forking, signal-ignoring, daemonising, setsid) in the ptrace runner, the namespace runner and a container, cancelled at rendezvous-pinned instants (before start, child before setsid via the child gate, in the sync callback, in a policy consultation, at the n-th wait of the tracer, program running/exiting); the run must return promptly with a truthful verdict and no process of the tree may survive","DESIGN §5 C11","in K the instants are pinned by rendezvous, what the kernel does between two rendezvous is its own"),
- "C12":("exploration","S1: histories of up to 30 operations incl. failures, cancels, transport faults, Destroy in flight; descriptors in transit get unique numbers, so every descriptor either side received is audited at the end; host-side goroutines must all have ended. K: histories of 3..8 real runs (exit, crash, cancel, failing launch, refused callback, failing Build) per runner kind; descriptors of the host and of the container init, children, goroutines, cgroup directories and mounts are compared after a warm-up run and at the end","DESIGN §5 C12","K compares counts after a settle loop (a leak persists, transient descriptors of the Go runtime do not); every process of a tree announces its pid, a zombie held by one of the host's tracing threads counts as residue"),
+ "C10":("exploration","S1: both RPC endpoints in one synctest bubble over a simulated transport and stub process table; seeded histories x per-Execve failure stage x delivery/exit/cancel/close interleavings; oracle: attribution of results by unique exit values, the container never exits while the transport is intact, usable after every program-caused failure, prompt errors after transport loss; a Ping whose reply arrives just before its deadline with a descheduled caller; requests and replies the control socket refuses as a whole (beyond the 32 KiB frame, beyond 253 descriptors, a descriptor that is not open); every select of the container package is scheduled by the simulator (which goroutine looks, and at which case first), so that several cases are ready at once when it looks. K: the same call histories (every failure stage incl. exec failing after sync, ETXTBSY, refused callbacks, refused messages) against a real container with real programs; the init must survive and stay usable","DESIGN §5 C10","stub processes obey forkexec's contract; in K the kernel schedules"),
+ "C11":("exploration","S1: cancel / Destroy injected at every event boundary of in-flight calls, also while the waiting goroutine is held in front of its select (cancellation and result both ready when it looks; the simulator names the case it tries first); oracle: the call returns (deadlock detection by quiescence + real-time watchdog), result is the stub child's genuine status or TLE, child killed and reaped, Destroy returns. K: real process trees (forking, signal-ignoring, daemonising, setsid) in the ptrace runner, the namespace runner and a container, cancelled at rendezvous-pinned instants (before start, child before setsid via the child gate, in the sync callback, in a policy consultation, at the n-th wait of the tracer, program running/exiting); the run must return promptly with a truthful verdict and no process of the tree may survive","DESIGN §5 C11","in K the instants are pinned by rendezvous, what the kernel does between two rendezvous is its own"),
+ "C12":("exploration","S1: histories of up to 30 operations incl. failures, cancels, transport faults, Destroy in flight; descriptors in transit get unique numbers, so every descriptor either side received is audited at the end; host-side goroutines must all have ended; refused messages and simulator-scheduled selects as in C10. K: histories of 3..8 real runs (exit, crash, cancel, failing launch, refused callback, failing Build) per runner kind; descriptors of the host and of the container init, children, goroutines, cgroup directories and mounts are compared after a warm-up run and at the end","DESIGN §5 C12","K compares counts after a settle loop (a leak persists, transient descriptors of the Go runtime do not); every process of a tree announces its pid, a zombie held by one of the host's tracing threads counts as residue"),
  "C14":("exploration","S1: Open/Symlink/Delete batches over a scratch tree with adversarial objects planted before each call; every returned descriptor compared with lstat(path at that index): (dev,inode), regular file, access mode, close-on-exec; items that must succeed do; no call blocks (real-time watchdog); a forced collection with finalizers of the serving process may fall inside a batch. K: a program inside a real container plants the objects, the host's Open/Symlink batches are judged from outside (lstat inside the container's root via openat2 RESOLVE_IN_ROOT), nothing may be created through a planted link, a batch must return within 20 s","DESIGN §5 C14","in S1 objects are planted between calls by the simulator; in K by a real program before the batch"),
 }
 na={"C01":"pure function policy -> BPF program over 2^32 x arch inputs: no schedule, clock, I/O, fault or second party; input enumeration is not this technique (DESIGN §4)",
